@@ -26,6 +26,8 @@ type Term struct {
 	Code int    `json:"code,omitempty"` // explicit token number, 0 = automatic
 	Tag  string `json:"tag,omitempty"`
 	Decl int    `json:"decl,omitempty"`
+	// TagByType: the tag is given by a separate `%type <tag> NAME` line (classic yacc style) instead of `%token <tag>`
+	TagByType bool `json:"tag_by_type,omitempty"`
 	// Redeclare: declared twice (%token <tag> X, then %token X n) as examples/exprobj.y does
 	Redecl bool `json:"redecl,omitempty"`
 }
@@ -69,7 +71,7 @@ type Sym struct {
 
 // Expr is an action expression over $i and constants.
 //
-//	Op 'k' constant K; 'd' $K; '+', '*' binary; 'c' string concat of Parts
+//	Op 'k' constant K; 'd' $K; '+', '*' binary; 'c' string concat of Parts; 'g' a user global S with value K
 type Expr struct {
 	Op    byte    `json:"op"`
 	K     int     `json:"k,omitempty"`
@@ -108,6 +110,9 @@ type Spec struct {
 	StartDecl bool    `json:"start_decl"` // false: rely on the default start symbol name `start`
 	Fields    []Field `json:"fields,omitempty"`
 	NoRec     bool    `json:"norec,omitempty"` // actions do not call Rec (generator-only workloads)
+	// KnownLALR: conflict-free LALR(1) by construction (family many-rules); engine B does not recompute the canonical
+	// LR(1) collection for it (the automaton-level checks do, for the same family)
+	KnownLALR bool `json:"known_lalr,omitempty"`
 	// EOFAlias, when set, declares `%token <EOFAlias> -1` (the idiom of examples/e.y): a named alias of the end marker
 	// that user code may return from GetToken
 	EOFAlias string `json:"eof_alias,omitempty"`
@@ -529,3 +534,10 @@ func simplifyAct(e *Expr, pos int) *Expr {
 	}
 	return e
 }
+
+// UserGlobals are package-level variables the user's epilogue defines and actions may refer to (plausible names; an
+// identifier the generator introduces into the scope of the actions would shadow them).
+var UserGlobals = []struct {
+	Name string
+	Val  int
+}{{"base", 1009}, {"offset", 2003}, {"total", 3001}, {"count", 4001}, {"scale", 5003}, {"depth", 6007}, {"pos", 7001}, {"look", 8009}}
